@@ -36,6 +36,20 @@ func init() {
 				}
 				j("VerifCancel", p, k)
 			}
+			for _, p := range []string{
+				`a=[1,2,3]; for x=a {for y=a {println(x,y)}}`,
+				`for i=3 {for j=3 {println(i,j)}}`,
+				`m={1:2,3:4,5:6}; for kv=m {for e=[7,8] {println(kv, e)}}`,
+				`s="abc"; for c=s {for d=s {println(c+d)}}`,
+				`x=0; for x<5 {x=x+1; println(x)}`,
+				`for 4 {println("t")}`,
+				`a=[1,2,3]; for x=a {for i=2 {println(x,i)}}`,
+				`println(1); println(2); println(3)`,
+				`a=[[1,2],[3,4],[5,6]]; for r=a {for e=r {println(e)}; println("row")}`,
+				`t=0; for x=[1,2,3,4,5,6,7,8,9,10] {t=t+x; if t%2==0 {continue}; println(t)}`,
+			} {
+				j("VerifCancelAtOutput", p, "9")
+			}
 			hi := "24"
 			if tier == "thorough" {
 				hi = "60"
@@ -48,8 +62,9 @@ func init() {
 		},
 		HangLabels: []string{"guard/guarded-size-wrapped", "guard/guarded-size-is-exact-product", "guard/negative-count-reaches-guard", "guard/large-result-built-without-guard", "cancel/evaluation-continues-after-cancellation"},
 		Budget:     map[string]time.Duration{"quick": 6 * time.Minute, "thorough": 40 * time.Minute},
-		Reach:      []string{"refused by the memory guard", "refused with an error", "result built", "guard reached", "cancelled during evaluation", "max depth reported", "completed within the limit"},
+		Reach:      []string{"refused by the memory guard", "refused with an error", "result built", "guard reached", "cancelled during evaluation", "cancelled after a printed line", "max depth reported", "completed within the limit"},
 		Bounds: map[string]interface{}{"guard_arithmetic": "array * n and string * n for operand lengths 0,1,2,3,4,9,16,257 and ALL int64 n, free memory = an arbitrary int64 (object.FreeMemory replaced by a nondeterministic stub); result sizes above 8 are not materialised by the executor (reported bound-exceeded)",
+			"cancellation_at_output": "10 programs with top-level prints inside nested list / map / string / counted / conditional loops; the context is cancelled by the output writer right after the k-th printed line, every k in 1..9 - a clock the evaluator does not control; no further line may be printed",
 			"cancellation": "8 programs (loops, recursion, non-terminating loop, unbounded recursion, container operators); the context's Err() turns non-nil at the k-th call for every k in 0..40 (120 thorough)",
 			"depth":        "4 recursion shapes (direct, mutual, closure chain, nested expressions), MaxDepth every value in 10..24 (60 thorough), recursion depth 0..24"},
 		Assumptions: []string{"time, resident memory and the Go stack are not modelled: the claim is about the arithmetic and control flow the guards rely on (DESIGN §4 C09, §6)"},
